@@ -282,6 +282,13 @@ def run_case(case) -> Outcome:
                 nt += 1
             elif kind in ("ram", "unmapped") and off in (0, 0xFFFF):
                 nt += 1
+        # beyond the 24-bit bus (and below 0) nothing is mapped, whatever the low 24 bits look like
+        for off in (0x0000, 0x8000, 0xFFFF):
+            for hi_part in (0x1000000, 0x2000000, 0xFF000000, -0x1000000):
+                a = ((bank << 16) | off) + hi_part
+                kind = _check_xlate(out, model, bus, rom, a, {"t": "xlate1", "rom": rom, "a": a})
+                counts[kind] += 1
+                nt += 1
         # Program.get_physical_address agrees (sampled at the window edges)
         if r is not None and not r.ram:
             from a816.program import Program
